@@ -198,6 +198,10 @@ class Gen:
             return {'k': 'rmmatch', 'rule': r}
         if k == 'close':
             return {'k': 'close'}
+        if k == 'hello':
+            return {'k': 'hello'}
+        if k == 'big':
+            return {'k': 'big', 'n': self.cfg.get('maxMsgSize', 70000) + rng.choice([1, 64, 5000])}
         sig, body = self.body()
         base = {'k': 'send', 'sig': sig, 'body': body, 'forge': self.forged()}
         if k == 'signal':
@@ -266,19 +270,32 @@ class Gen:
             return base
         raise ValueError(k)
 
-    def scenario(self, nrounds=12, concurrency=0.35, burst=0.2, query_every=0.5):
+    def scenario(self, nrounds=12, concurrency=0.35, burst=0.2, query_every=0.5, late_hello=0.0):
         rng = self.rng
-        self.rounds = [{'ops': {str(s): self.connect_ops(s) for s in self.slots}}]
+        first = {}
+        self.pending_hello = set()
+        for s in self.slots:
+            if rng.random() < late_hello:
+                u = rng.choice(self.uids)
+                self.connected[s] = u
+                first[str(s)] = [{'k': 'connect', 'uid': u}]
+                self.pending_hello.add(s)
+            else:
+                first[str(s)] = self.connect_ops(s)
+        self.rounds = [{'ops': {k: v}} for k, v in first.items()]
         for _ in range(nrounds):
-            k = 1 if rng.random() > concurrency else rng.randint(2, len(self.slots))
+            k = 1 if rng.random() > concurrency else rng.randint(2, min(3, len(self.slots)))
             chosen = rng.sample(self.slots, k)
             ops = {}
             for s in chosen:
                 if s not in self.connected:
                     ops[str(s)] = self.connect_ops(s)
                     continue
-                n = rng.choice([1, 1, 2]) if rng.random() > burst else rng.randint(3, 6)
+                n = rng.choice([1, 1, 2]) if rng.random() > burst else rng.randint(3, 5 if k == 1 else 4)
                 lst = []
+                if s in self.pending_hello and rng.random() < 0.5:
+                    self.pending_hello.discard(s)
+                    lst.append({'k': 'hello'})
                 for _j in range(n):
                     o = self.op(s)
                     lst.append(o)
